@@ -164,7 +164,8 @@ def check_scorer(ctx, pkg, name, width, inner, mode):
             if fired:
                 ctx.check(all(p.outcome == "raise" and p.exc.exc_name == "ValueError" for p in fired), "C13.b SANITISE-RANGE", f"{name}|{nm}|raises", raise_loc(fired[0], loc), "an out-of-range cut is rejected with ValueError", found=[(p.outcome, p.exc.exc_name if p.exc else "") for p in fired])
         # ------------------------------------------------ spacing / min_size
-        dpred = lambda c: c.t[0] == "any" and c.t[1].t[0] == "cmp" and any(a.kind == "app" and a.args[0] == "diff" for a in atoms_of(c.t[1].t[2]).values())  # noqa: E731
+        # consecutive differences ALONG each row (axis 1) of the cuts array itself
+        dpred = lambda c: c.t[0] == "any" and c.t[1].t[0] == "cmp" and any(a.kind == "app" and a.args[0] == "diff" and a.args[4] in (1, -1) and nf_equal(lift(a.args[1]), cuts_s) for a in atoms_of(c.t[1].t[2]).values())  # noqa: E731
         fired = guard_outcomes(paths, dpred)
         ok = bool(fired) and all(p.outcome == "raise" and p.exc.exc_name == "ValueError" for p in fired) and all(any(dpred(c) and v is False for c, v in both_polarities(p.facts)) for p in reach)
         ctx.check(ok, "C13.c CHECK-COMPLETE", f"{name}|spacing", raise_loc(fired[0], loc) if fired else loc, "rows whose consecutive differences are below min_size are rejected with ValueError on every path to the kernel", found=f"{len(fired)} rejecting paths")
